@@ -20,7 +20,7 @@ from ..finite import run_paths
 from ..fold import try_fold
 from ..model import AnalysisError, Func, Repo, dotted, is_name, norm, walk_shallow
 from ..report import Ledger
-from ..sym import B, Const, Lin, Range, State, Sym, SymExec, Tup, as_lin, b_not, cmp_lin, opaque, NotNumeric
+from ..sym import eq0, B, Const, Lin, Range, State, Sym, SymExec, Tup, as_lin, b_not, cmp_lin, opaque, NotNumeric
 from ..util import kw
 from .shared import chunker_siblings, gap_iter_exact
 
@@ -183,7 +183,7 @@ class _WrapExec(SymExec):
 
     def truth(self, v):
         if isinstance(v, Sym) and v.name == "seq":
-            return b_not(B("eq", Lin.atom("n")))  # bytes are truthy iff non-empty
+            return b_not(eq0(Lin.atom("n")))  # bytes are truthy iff non-empty
         return super().truth(v)
 
 
@@ -232,8 +232,8 @@ def _wrap(repo, L, fs, ws: Func):
             raise AnalysisError(f"write loop: the line counter becomes {r.env[cnt]!r}, outside the affine fragment (no verdict)")
         if len(rd) != 1 or not (isinstance(rd[0][2], Lin) and rd[0][2] == W):
             ok, why = False, f"chunk read with size {rd[0][2] if rd else None}, expected the remaining line width"
-        empty = B("eq", n_) in r.pc
-        full = cmp_lin("==", W - n_, Lin.const(0)) in r.pc or B("eq", W - n_) in r.pc or B("eq", n_ - W) in r.pc
+        empty = eq0(n_) in r.pc
+        full = cmp_lin("==", W - n_, Lin.const(0)) in r.pc or eq0(W - n_) in r.pc or eq0(n_ - W) in r.pc
         data = [w for w in writes if isinstance(w[2], Sym) and w[2].name == "seq"]
         nls = [w for w in writes if isinstance(w[2], Const) and w[2].v in (b"\n", "\n")]
         other = [w for w in writes if w not in data and w not in nls]
@@ -326,9 +326,9 @@ def _random_access(repo, L, fi, rule="R6"):
     n_cases = 0
     results = []
     for case, extra_pc, ll_val in (
-        ("single-line", [B("eq", FL - LLn)], None),
-        ("multi-line, last line partial", [b_not(B("eq", FL - LLn)), b_not(B("eq", LO))], QE),
-        ("multi-line, ends on a line boundary", [b_not(B("eq", FL - LLn)), B("eq", LO)], QE - 1),
+        ("single-line", [eq0(FL - LLn)], None),
+        ("multi-line, last line partial", [b_not(eq0(FL - LLn)), b_not(eq0(LO))], QE),
+        ("multi-line, ends on a line boundary", [b_not(eq0(FL - LLn)), eq0(LO)], QE - 1),
     ):
         ex = _RAExec(repo, loop_iters=(1,))
         st = fresh()
@@ -382,7 +382,7 @@ def _random_access(repo, L, fi, rule="R6"):
                 d2 = _replace_atom(d2, LLn, ll_val)
             else:
                 d2 = _replace_atom(d2, LLn, FL)  # single line: same line index
-            if B("eq", LO) in extra_pc:
+            if eq0(LO) in extra_pc:
                 d2 = _replace_atom(d2, LO, Lin.const(0))
             okt = okr and d2.is_zero()
             L.check(okt, rule, f"{sb.short}[{case}]:bytes", "Σ read sizes == end − start0", f"in the case '{case}' the reads sum to {total}, which differs from the interval length end − start + 1 by {d2} (after the division identities)", sb.loc(), witness={"case": case, "reads": [repr(e[2][1][0]) if e[2][1] else None for e in reads], "whole_lines": repr(count)})
